@@ -16,7 +16,7 @@ import (
 )
 
 type Case struct {
-	Src    string            `json:"src"`
+	Src    mon.Str           `json:"src"`
 	Params map[string]string `json:"params,omitempty"`
 }
 
@@ -48,7 +48,7 @@ var paramSets = []map[string]string{nil, nil, {"ia": "$1", "sa": "{s:String}", "
 func generate(w *mon.W) {
 	shapes := map[string]bool{}
 	do := func(src string, pm map[string]string) {
-		c := &Case{Src: src, Params: pm}
+		c := &Case{Src: mon.Str(src), Params: pm}
 		w.Do(fmt.Sprint(len(pm), "|", src), func(r *mon.R) { Check(c, r, shapes) })
 	}
 	for _, s := range gen.Seeds() {
@@ -82,13 +82,25 @@ func generate(w *mon.W) {
 		prog := gen.SynProgram(sg, i)
 		do(Print(prog, gen.LayoutFor(int64(i), i%3)).Src, paramSets[i%len(paramSets)])
 	}
+	// schema-tracked pipelines with joins (they all compile: more SQL shapes)
+	n = w.Pick(6_000, 200_000)
+	kinds := append(append([]string{}, gen.Kinds...), "join", "join")
+	for i := 0; i < n && !w.Stopped(); i++ {
+		var seq []string
+		for k := 1 + rng.Intn(7); k > 0; k-- {
+			seq = append(seq, kinds[rng.Intn(len(kinds))])
+		}
+		pg := &gen.PipeGen{Rng: rng, DetSort: 50}
+		p, _ := pg.Pipe("T", seq, 2)
+		do(Print(&Program{Stmts: []*Stmt{{Pipe: p}}}, gen.LayoutFor(int64(i), i%3)).Src, nil)
+	}
 	// site-guided mutation corpus (per worker)
 	mrng := gen.RNG(w.Seed, fmt.Sprintf("c05/%d", w.Shard))
 	corpus := gen.NewCorpus(gen.Seeds(), 3000)
 	n = w.Pick(60_000, 3_000_000) / w.NShards
 	for i := 0; i < n && !w.Stopped(); i++ {
 		s := corpus.Mutant(mrng)
-		c := &Case{Src: s}
+		c := &Case{Src: mon.Str(s)}
 		w.DoOwned("0|"+s, func(r *mon.R) {
 			mon.ResetSig()
 			ok := Check(c, r, shapes)
@@ -127,7 +139,7 @@ func inventory(stmts []parser.Statement) (tables, asNames, calls []string) {
 // Check decides one source; it reports whether the source compiled and held.
 func Check(c *Case, r *mon.R, shapes map[string]bool) bool {
 	r.Case = c
-	sql, err, o := mon.Compile(c.Src, c.Params)
+	sql, err, o := mon.Compile(string(c.Src), c.Params)
 	if o.Anomalous() {
 		r.Inconclusive("foreign_compile_anomaly")
 		return false
@@ -137,7 +149,7 @@ func Check(c *Case, r *mon.R, shapes map[string]bool) bool {
 		r.Inconclusive("did_not_compile")
 		return false
 	}
-	stmts, perr, o := mon.Parse(c.Src)
+	stmts, perr, o := mon.Parse(string(c.Src))
 	if o.Anomalous() || perr != nil {
 		r.Inconclusive("foreign_parse")
 		return false
@@ -161,7 +173,7 @@ func Check(c *Case, r *mon.R, shapes map[string]bool) bool {
 		seen[a] = true
 	}
 	bad := func(format string, args ...any) bool {
-		r.Violation("", "Compile(%q) succeeds with output\n  %s\n  %s", c.Src, sql, fmt.Sprintf(format, args...))
+		r.Violation("", "Compile(%q) succeeds with output\n  %s\n  %s", string(c.Src), sql, fmt.Sprintf(format, args...))
 		return false
 	}
 	if strings.Contains(sql, "unhandled") && strings.Contains(sql, "/*") || strings.Contains(sql, "unsupported operator") {
@@ -274,8 +286,8 @@ func Check(c *Case, r *mon.R, shapes map[string]bool) bool {
 	}
 	if len(st.CTEs) > 0 || clauses >= 2 {
 		r.Nontrivial()
-		if len(c.Src) < 90 && len(st.CTEs) > 0 {
-			r.Sample(map[string]any{"pql": c.Src, "sql": sql})
+		if len(string(c.Src)) < 90 && len(st.CTEs) > 0 {
+			r.Sample(map[string]any{"pql": string(c.Src), "sql": sql})
 		}
 	}
 	return true
